@@ -14,6 +14,9 @@ THEOREMS = [
     "CrCube.C09.no_eligible_always_pruned",
     "CrCube.C09.mr_answered_counts",
     "CrCube.C09.mr_x_mr_selected_only",
+    "CrCube.C09.columnsPruningBase_spec",
+    "CrCube.C09.columns_empty_iff",
+    "CrCube.C09.strand_pruning_base",
 ]
 RULE = ("random designs (1-D and 2-D/3-D over cat/cat_date/datetime/text/mr/ca) x surveys with forced empty rows/columns/items and "
         "rows whose respondents all have weight 0 x all combinations of per-element hide flags, prune flags on both "
